@@ -96,6 +96,27 @@ func (g *gen) newSmpNet(w *world, version int) *smpNet {
 	n := &smpNet{w: w, g: g, a: a, b: b, l: &link{w: w, a: a, b: b}}
 	n.l.enqueue(a, []otr3.ValidMessage{w.query(a)})
 	n.l.settle(30)
+	if g.r.Intn(3) == 0 && a.c.IsEncrypted() && b.c.IsEncrypted() {
+		// the SMP runs take place in a second session of the same two conversation objects: one side
+		// ended the first one, the other is finished (and may or may not have called End itself)
+		g.dist["smp:second-session"]++
+		e, o := a, b
+		if g.r.Intn(2) == 0 {
+			e, o = b, a
+		}
+		ts, _ := w.end(e)
+		n.l.enqueue(e, ts)
+		n.l.settle(10)
+		if g.r.Intn(2) == 0 {
+			ts, _ = w.end(o)
+			n.l.enqueue(o, ts)
+			n.l.settle(10)
+		}
+		w.tick(61)
+		st := []*party{a, b}[g.r.Intn(2)]
+		n.l.enqueue(st, []otr3.ValidMessage{w.query(st)})
+		n.l.settle(30)
+	}
 	return n
 }
 
